@@ -94,6 +94,9 @@ Section WithOracle.
   Definition xrow_value := row_value str str str (o_float o) (o_tnp o) (o_tfmt o) (o_tpd o) (o_delta o).
 End WithOracle.
 
+(* (v) = returns v, "ValueError", "Error" *)
+Definition sres {A} (f : A -> sx) (r : res A) : sx :=
+  match r with Ok a => SL [f a] | VErr => S_ "ValueError" | OErr => S_ "Error" end.
 Definition sscheme (s : scheme) : sx :=
   S_ (match s with Empty => "empty" | Simple => "simple" | Flat => "flat" | Other => "other" | Hive => "hive" | Drill => "drill" end).
 Definition scats (c : list (str * list xvalue)) : sx :=
@@ -116,7 +119,7 @@ Definition h_join_path (a : list sx) : sx :=
 Definition h_val_from_meta (a : list sx) : sx :=
   match a with
   | [k; x; o] => match as_kind k, as_str x, as_oracle o with
-                 | Some k, Some x, Some o => sopt svalue (xparse_with_meta o k x)
+                 | Some k, Some x, Some o => sres svalue (xparse_with_meta o k x)
                  | _, _, _ => err "args" end
   | _ => err "arity"
   end.
@@ -137,10 +140,10 @@ Definition h_parse_int (a : list sx) : sx :=
 
 Definition h_path_to_cats (a : list sx) : sx :=
   match a with
-  | [hive; pm; dirs; o] =>
-    match as_bool hive, as_pm pm, as_list_of as_str dirs, as_oracle o with
-    | Some h, Some pm, Some dirs, Some o => sopt scats (xpath_to_cats o h pm dirs)
-    | _, _, _, _ => err "args" end
+  | [hive; pm; dirs; parts; o] =>
+    match as_bool hive, as_pm pm, as_list_of as_str dirs, as_list_of (as_list_of as_str) parts, as_oracle o with
+    | Some h, Some pm, Some dirs, Some parts, Some o => sres scats (xpath_to_cats o h pm (combine dirs parts))
+    | _, _, _, _, _ => err "args" end
   | _ => err "arity"
   end.
 
@@ -149,7 +152,7 @@ Definition h_paths_to_cats (a : list sx) : sx :=
   | [pm; paths; dirs; o] =>
     match as_pm pm, as_list_of as_str paths, as_list_of as_str dirs, as_oracle o with
     | Some pm, Some paths, Some dirs, Some o =>
-      sopt (fun r => SL [sscheme (fst r); scats (snd r)]) (xpaths_to_cats o pm paths dirs)
+      sres (fun r => SL [sscheme (fst r); scats (snd r)]) (xpaths_to_cats o pm paths dirs)
     | _, _, _, _ => err "args" end
   | _ => err "arity"
   end.
